@@ -140,9 +140,9 @@ func vh_C04_Stream() {
 	vfAssert(op+"/receiver-still-shows-its-elements", vfSliceEq([]int(*s), oldA))
 	fresh := vfAnd(!vfSameStorage(r, s), vfAnd(!vfSameStorage(r, o), !vfSameStorage(r, z)))
 	if mayBeReceiver {
-		vfAssert(op+"/fresh-or-receiver", vfOr(r == s, fresh))
+		vfAssert("lemma/"+op+"/fresh-or-receiver", vfOr(r == s, fresh))
 	} else {
-		vfAssert(op+"/fresh", vfOr(fresh, len(*r) == 0 && cap(*r) == 0))
+		vfAssert("lemma/"+op+"/fresh", vfOr(fresh, len(*r) == 0 && cap(*r) == 0))
 	}
 	vfReach("end")
 }
@@ -165,7 +165,7 @@ func vh_C04_StreamSortByIndex() {
 	vfAssert("result-ordered", ord)
 	// the receiver's header may be re-pointed at a copy, but it must still SHOW the old elements
 	vfAssert("receiver-still-shows-its-elements", vfSliceEq([]int(*s), oldA))
-	vfAssert("separated", !vfSameStorage(r, s))
+	vfAssert("lemma/separated", !vfSameStorage(r, s))
 	vfUnchanged("bystander-unchanged", snapZ)
 	vfReach("end")
 }
@@ -317,14 +317,21 @@ func vh_C04_StreamForInterface() {
 	}
 	if op == "SortByIndex" {
 		vfAssert(op+"/receiver-still-shows-its-elements", vfSliceEq(c04Unbox(s), a))
-		vfAssert(op+"/separated", !vfSameStorage(r, s))
+		vfAssert("lemma/"+op+"/separated", !vfSameStorage(r, s))
 	} else {
 		vfUnchanged(op+"/existing-collections-unchanged", snap)
 		fresh := vfAnd(!vfSameStorage(r, s), !vfSameStorage(r, o))
 		if mayBeReceiver {
-			vfAssert(op+"/fresh-or-receiver", vfOr(r == s, fresh))
+			vfAssert("lemma/"+op+"/fresh-or-receiver", vfOr(r == s, fresh))
 		} else {
-			vfAssert(op+"/fresh", vfOr(fresh, len(*r) == 0 && cap(*r) == 0))
+			vfAssert("lemma/"+op+"/fresh", vfOr(fresh, len(*r) == 0 && cap(*r) == 0))
+		}
+		// a second step through the public API: the documented in-place mutator (Remove) and an Append on the RESULT,
+		// when the result is a different object, must not reach the receiver or the argument
+		if r != s && r != o {
+			if !vfPanics(func() { r.Remove(0); r.Append(x) }) { // a panic here (e.g. Set on the nil map behind an empty Intersection) is outside what C04 states
+				vfUnchanged(op+"/mutating-the-result-leaves-existing-collections-unchanged", snap)
+			}
 		}
 	}
 	vfReach("end")
@@ -455,13 +462,21 @@ func vh_C04_MapSet() {
 	vfUnchanged(op+"/existing-collections-unchanged", snap)
 	fresh := vfAnd(!vfSameStorage(r.AsMap(), ma), !vfSameStorage(r.AsMap(), mb))
 	if mayBeReceiver {
-		vfAssert(op+"/fresh-or-receiver", vfOr(r.AsMapSet() == s, fresh))
+		vfAssert("lemma/"+op+"/fresh-or-receiver", vfOr(r.AsMapSet() == s, fresh))
 	} else {
-		vfAssert(op+"/fresh", fresh)
+		vfAssert("lemma/"+op+"/fresh", fresh)
 	}
 	// observers agree with the map
 	vfAssert(op+"/size", r.Size() == len(r.AsMap()))
 	vfAssert(op+"/keys", vfSameMultiset(r.Keys(), Keys(r.AsMap())))
+	// a second step through the public API: the documented in-place mutator applied to the RESULT (when the result is
+	// a different object) must not reach the receiver or the argument
+	if r.AsMapSet() != s && r.AsMapSet() != o {
+		k2, v2 := vfInt("k2"), vfInt("v2")
+		if !vfPanics(func() { r.Set(k2, v2) }) { // a panic here (e.g. Set on the nil map behind an empty Intersection) is outside what C04 states
+			vfUnchanged(op+"/set-on-result-leaves-existing-collections-unchanged", snap)
+		}
+	}
 	vfReach("end")
 }
 
@@ -553,9 +568,15 @@ func vh_C04_SetForInterface() {
 	vfUnchanged(op+"/existing-collections-unchanged", snap)
 	fresh := vfAnd(!vfSameStorage(r, s), !vfSameStorage(r, o))
 	if mayBeReceiver {
-		vfAssert(op+"/fresh-or-receiver", vfOr(r == s, fresh))
+		vfAssert("lemma/"+op+"/fresh-or-receiver", vfOr(r == s, fresh))
 	} else {
-		vfAssert(op+"/fresh", fresh)
+		vfAssert("lemma/"+op+"/fresh", fresh)
+	}
+	if r != s && r != o {
+		k2 := vfInt("k2")
+		if !vfPanics(func() { r.Set(k2, k2) }) { // a panic here (e.g. Set on the nil map behind an empty Intersection) is outside what C04 states
+			vfUnchanged(op+"/set-on-result-leaves-existing-collections-unchanged", snap)
+		}
 	}
 	vfReach("end")
 }
@@ -613,19 +634,31 @@ func vh_C04_StreamSet() {
 	if generic {
 		vfAssert(op+"/non-nil-result", rg != nil)
 		if rg != nil && rg != ga {
-			vfAssert(op+"/own-map", vfAnd(!vfSameStorage(rg.MapSetDef, ga.MapSetDef), !vfSameStorage(rg.MapSetDef, gb.MapSetDef)))
+			vfAssert("lemma/"+op+"/own-map", vfAnd(!vfSameStorage(rg.MapSetDef, ga.MapSetDef), !vfSameStorage(rg.MapSetDef, gb.MapSetDef)))
 		}
 		if op == "Clone" && rg != nil {
 			for k, st := range rg.MapSetDef {
 				if st != nil && ga.MapSetDef[k] != nil {
-					vfAssert("Clone/streams-cloned", vfOr(st.Len() == 0, !vfSameStorage(st, ga.MapSetDef[k])))
+					vfAssert("lemma/Clone/streams-cloned", vfOr(st.Len() == 0, !vfSameStorage(st, ga.MapSetDef[k])))
 				}
+			}
+		}
+		if rg != nil && rg != ga && rg != gb {
+			k2 := vfInt("k2")
+			if !vfPanics(func() { rg.Set(k2, StreamFromArray([]int{k2})) }) { // a panic here (e.g. Set on the nil map behind an empty Intersection) is outside what C04 states
+				vfUnchanged(op+"/set-on-result-leaves-existing-collections-unchanged", snap)
 			}
 		}
 	} else {
 		vfAssert(op+"/non-nil-result", rt != nil)
 		if rt != nil && rt != ta {
-			vfAssert(op+"/own-map", vfAnd(!vfSameStorage(rt.SetForInterfaceDef, ta.SetForInterfaceDef), !vfSameStorage(rt.SetForInterfaceDef, tb.SetForInterfaceDef)))
+			vfAssert("lemma/"+op+"/own-map", vfAnd(!vfSameStorage(rt.SetForInterfaceDef, ta.SetForInterfaceDef), !vfSameStorage(rt.SetForInterfaceDef, tb.SetForInterfaceDef)))
+		}
+		if rt != nil && rt != ta && rt != tb {
+			k2 := vfInt("k2")
+			if !vfPanics(func() { rt.Set(k2, StreamForInterface.FromArray(c05Box([]int{k2}))) }) { // a panic here (e.g. Set on the nil map behind an empty Intersection) is outside what C04 states
+				vfUnchanged(op+"/set-on-result-leaves-existing-collections-unchanged", snap)
+			}
 		}
 	}
 	vfReach("end")
